@@ -51,6 +51,17 @@ def posk(x, k=0):
     return x.n > k
 
 
+@predicate
+def posq(x):
+    """builds a query of its own and evaluates it inside that query's own block, while the caller's result is computed"""
+    from entity_query_language import symbolic_mode, let, an, entity
+    with symbolic_mode():
+        y = let(B, [x])
+        inner = an(entity(y, y.n > 0))
+    with inner:
+        return any(True for _ in inner.evaluate())
+
+
 class Boom(Exception):
     pass
 
@@ -113,9 +124,15 @@ def check_case(case, ctx):
     def mkq():
         with symbolic_mode():
             x = let(B, bs)
-            return an(entity(x, x.n > 0, pos(x)))
+            return an(entity(x, x.n > 0, pos(x), posq(x)))
+
+    # one variable whose attribute was spelled inside a block: spelling it again outside every block is still rejected
+    with symbolic_mode():
+        pv = let(B, bs)
+        pv_n = pv.n
 
     stack = []   # reference machine: (mode or None, pushes_expression_stack, context manager)
+    tops = []    # for every open block the current expression right after it was entered (None if it pushes none)
     its = []     # live iterators: [iterator, depth at creation / last advance]
 
     def ref_mode():
@@ -142,6 +159,16 @@ def check_case(case, ctx):
         cur = SymbolicExpression._current_parent_()
         if d != ref_depth() or (cur is None) != (ref_depth() == 0):
             return {"what": "EXPRESSION_STACK_DEPTH", "observed": d, "expected": ref_depth()}
+        want_top = next((t for t in reversed(tops) if t is not None), None)
+        if cur is not want_top:
+            return {"what": "CURRENT_EXPRESSION_IS_NOT_THE_INNERMOST_BLOCKS", "observed": repr(cur)[:80], "expected": repr(want_top)[:80]}
+        try:
+            a_ = pv.n
+            spelled = True
+        except AttributeError:
+            spelled = False
+        if spelled != (rm is not None) or hasattr(pv, "n") != (rm is not None):
+            return {"what": "ATTRIBUTE_OF_A_VARIABLE_USED_BEFORE_IN_A_BLOCK", "accepted": spelled, "expected_mode": repr(rm)}
         o = B(9)
         if (rm is None) != (type(o) is B):
             return {"what": "CONSTRUCTOR", "observed": type(o).__name__, "expected_mode": repr(rm)}
@@ -251,9 +278,11 @@ def check_case(case, ctx):
                         fail = {"what": "RESULT_NOT_A_REAL_INSTANCE", "observed": type(o).__name__}
             elif name == "leave":
                 _, _, cm = stack.pop()
+                tops.pop()
                 cm.__exit__(None, None, None)
             elif name == "raise_leave":
                 _, _, cm = stack.pop()
+                tops.pop()
                 try:
                     e = Boom()
                     cm.__exit__(Boom, e, None)
@@ -286,6 +315,8 @@ def check_case(case, ctx):
                     for o in ent[0]:
                         if type(o) is not B:
                             fail = {"what": "RESULT_NOT_A_REAL_INSTANCE", "observed": type(o).__name__}
+            if name in OPS_ENTER:
+                tops.append(SymbolicExpression._current_parent_() if stack[-1][1] else None)
             fail = fail or observe(step, name)
             if fail:
                 fail.update({"step": step, "op": op})
